@@ -14,48 +14,103 @@ From Coq Require Import List Arith Bool Lia.
 From PV Require Import Base.Exn Model.PipeKernel Model.Subproc Spec.SubprocSpec.
 Import ListNotations.
 
-(* ---- decidable equality of local states (transparent: it is evaluated) ---------------- *)
+(* ---- boolean equality of local states (it is evaluated; only its soundness is needed) ------- *)
 Definition exn_eq_dec : forall a c : exn, {a = c} + {a <> c} := list_eq_dec Nat.eq_dec.
-Definition xval_eq_dec : forall a c : xval, {a = c} + {a <> c}.
-Proof. decide equality; apply exn_eq_dec. Defined.
-Definition pfinal_eq_dec : forall a c : pfinal, {a = c} + {a <> c}.
-Proof. decide equality; apply xval_eq_dec. Defined.
-Definition pstat_eq_dec : forall a c : pstat, {a = c} + {a <> c}.
-Proof. decide equality; apply pfinal_eq_dec. Defined.
-Definition rval_eq_dec : forall a c : rval, {a = c} + {a <> c}.
-Proof. decide equality; apply xval_eq_dec. Defined.
-Definition ends_eq_dec : forall a c : ends, {a = c} + {a <> c}.
-Proof. decide equality; apply bool_dec. Defined.
-Definition pside_eq_dec : forall a c : pside, {a = c} + {a <> c}.
-Proof.
-  decide equality; try apply bool_dec; try apply Nat.eq_dec; try apply ends_eq_dec; try apply pstat_eq_dec.
-  decide equality; apply rval_eq_dec.
-Defined.
-Definition cstatus_eq_dec : forall a c : cstatus, {a = c} + {a <> c}.
-Proof. decide equality. Defined.
-Definition cpend_eq_dec : forall a c : cpend, {a = c} + {a <> c}.
-Proof. decide equality. Defined.
-Definition cside_eq_dec : forall a c : cside, {a = c} + {a <> c}.
-Proof.
-  decide equality; try apply bool_dec; try apply Nat.eq_dec; try apply ends_eq_dec;
-    try apply cstatus_eq_dec; try apply cpend_eq_dec.
-Defined.
-Definition payload_eq_dec : forall a c : payload, {a = c} + {a <> c}.
-Proof. decide equality. Defined.
-Definition msg_eq_dec : forall a c : msg, {a = c} + {a <> c}.
-Proof. decide equality; apply payload_eq_dec. Defined.
-Definition lst_eq_dec : forall a c : lst, {a = c} + {a <> c}.
-Proof.
-  decide equality; [apply (list_eq_dec msg_eq_dec) | apply cside_eq_dec | apply pside_eq_dec].
-Defined.
 
-Definition lst_eqb (a c : lst) : bool := if lst_eq_dec a c then true else false.
+Lemma exn_eqb_eq : forall a c, exn_eqb a c = true -> a = c.
+Proof.
+  induction a as [|x a IH]; intros [|y c] H; cbn in H; try discriminate; [reflexivity|].
+  apply andb_true_iff in H as [H1 H2]. apply Nat.eqb_eq in H1. subst. f_equal. now apply IH.
+Qed.
+
+Definition opt_beq {A} (f : A -> A -> bool) (a c : option A) : bool :=
+  match a, c with Some x, Some y => f x y | None, None => true | _, _ => false end.
+Fixpoint list_beq {A} (f : A -> A -> bool) (a c : list A) : bool :=
+  match a, c with [], [] => true | x :: a', y :: c' => f x y && list_beq f a' c' | _, _ => false end.
+Definition xval_beq (a c : xval) : bool :=
+  match a, c with XCallee, XCallee => true | XCls x, XCls y => exn_eqb x y | XRetAttr, XRetAttr => true | _, _ => false end.
+Definition pfinal_beq (a c : pfinal) : bool :=
+  match a, c with FReturnCallee, FReturnCallee => true | FReturnOther, FReturnOther => true
+                | FRaise x, FRaise y => xval_beq x y | _, _ => false end.
+Definition pstat_beq (a c : pstat) : bool :=
+  match a, c with PSRun, PSRun => true | PSWait, PSWait => true | PSDone x, PSDone y => pfinal_beq x y | _, _ => false end.
+Definition rval_beq (a c : rval) : bool :=
+  match a, c with RVal, RVal => true | RErr x, RErr y => xval_beq x y | _, _ => false end.
+Definition ends_beq (a c : ends) : bool := Bool.eqb (e_rx a) (e_rx c) && Bool.eqb (e_tx a) (e_tx c).
+Definition pside_beq (a c : pside) : bool :=
+  Nat.eqb (p_pc a) (p_pc c) && pstat_beq (p_stat a) (p_stat c) && ends_beq (p_ends a) (p_ends c) &&
+  Bool.eqb (p_reader a) (p_reader c) && opt_beq rval_beq (p_result a) (p_result c) &&
+  Bool.eqb (p_joined a) (p_joined c) && opt_beq exn_eqb (p_pending a) (p_pending c).
+Definition cstatus_beq (a c : cstatus) : bool :=
+  match a, c with CNotStarted, CNotStarted => true | CRunning, CRunning => true | CExited, CExited => true | _, _ => false end.
+Definition cpend_beq (a c : cpend) : bool :=
+  match a, c with CPNone, CPNone => true | CPOk, CPOk => true | CPOkCoroutine, CPOkCoroutine => true
+                | CPRaise, CPRaise => true | CPHandled, CPHandled => true | _, _ => false end.
+Definition cside_beq (a c : cside) : bool :=
+  cstatus_beq (c_stat a) (c_stat c) && Nat.eqb (c_pc a) (c_pc c) && ends_beq (c_ends a) (c_ends c) &&
+  cpend_beq (c_pend a) (c_pend c) && Bool.eqb (c_sending a) (c_sending c) && Bool.eqb (c_killed a) (c_killed c).
+Definition payload_beq (a c : payload) : bool :=
+  match a, c with PlResult, PlResult => true | PlError, PlError => true | _, _ => false end.
+Definition msg_beq (a c : msg) : bool :=
+  match a, c with MFull x, MFull y => payload_beq x y | MTrunc, MTrunc => true | _, _ => false end.
+Definition lst_eqb (a c : lst) : bool :=
+  pside_beq (ps a) (ps c) && cside_beq (cs a) (cs c) && list_beq msg_beq (data a) (data c).
+
+Lemma opt_beq_eq : forall A (f : A -> A -> bool), (forall x y, f x y = true -> x = y) ->
+  forall a c, opt_beq f a c = true -> a = c.
+Proof. intros A f Hf [x|] [y|] H; cbn in H; try discriminate; [f_equal; auto | reflexivity]. Qed.
+Lemma list_beq_eq : forall A (f : A -> A -> bool), (forall x y, f x y = true -> x = y) ->
+  forall a c, list_beq f a c = true -> a = c.
+Proof.
+  intros A f Hf. induction a as [|x a IH]; intros [|y c] H; cbn in H; try discriminate; [reflexivity|].
+  apply andb_true_iff in H as [H1 H2]. f_equal; auto.
+Qed.
+Lemma xval_beq_eq : forall a c, xval_beq a c = true -> a = c.
+Proof. intros [|x|] [|y|] H; cbn in H; try discriminate; try reflexivity. f_equal. now apply exn_eqb_eq. Qed.
+Lemma pfinal_beq_eq : forall a c, pfinal_beq a c = true -> a = c.
+Proof. intros [| |x] [| |y] H; cbn in H; try discriminate; try reflexivity. f_equal. now apply xval_beq_eq. Qed.
+Lemma pstat_beq_eq : forall a c, pstat_beq a c = true -> a = c.
+Proof. intros [| |x] [| |y] H; cbn in H; try discriminate; try reflexivity. f_equal. now apply pfinal_beq_eq. Qed.
+Lemma rval_beq_eq : forall a c, rval_beq a c = true -> a = c.
+Proof. intros [|x] [|y] H; cbn in H; try discriminate; try reflexivity. f_equal. now apply xval_beq_eq. Qed.
+Lemma ends_beq_eq : forall a c, ends_beq a c = true -> a = c.
+Proof.
+  intros [a1 a2] [c1 c2] H. unfold ends_beq in H; cbn in H. apply andb_true_iff in H as [H1 H2].
+  apply eqb_prop in H1, H2. now subst.
+Qed.
+Lemma pside_beq_eq : forall a c, pside_beq a c = true -> a = c.
+Proof.
+  intros [a1 a2 a3 a4 a5 a6 a7] [c1 c2 c3 c4 c5 c6 c7] H. unfold pside_beq in H; cbn in H.
+  repeat (apply andb_true_iff in H; let H' := fresh "H" in destruct H as [H H']).
+  apply Nat.eqb_eq in H. apply pstat_beq_eq in H5. apply ends_beq_eq in H4. apply eqb_prop in H3, H1.
+  apply (opt_beq_eq _ _ rval_beq_eq) in H2. apply (opt_beq_eq _ _ exn_eqb_eq) in H0. now subst.
+Qed.
+Lemma cstatus_beq_eq : forall a c, cstatus_beq a c = true -> a = c.
+Proof. intros [] [] H; cbn in H; try discriminate; reflexivity. Qed.
+Lemma cpend_beq_eq : forall a c, cpend_beq a c = true -> a = c.
+Proof. intros [] [] H; cbn in H; try discriminate; reflexivity. Qed.
+Lemma cside_beq_eq : forall a c, cside_beq a c = true -> a = c.
+Proof.
+  intros [a1 a2 a3 a4 a5 a6] [c1 c2 c3 c4 c5 c6] H. unfold cside_beq in H; cbn in H.
+  repeat (apply andb_true_iff in H; let H' := fresh "H" in destruct H as [H H']).
+  apply cstatus_beq_eq in H. apply Nat.eqb_eq in H4. apply ends_beq_eq in H3. apply cpend_beq_eq in H2.
+  apply eqb_prop in H1, H0. now subst.
+Qed.
+Lemma msg_beq_eq : forall a c, msg_beq a c = true -> a = c.
+Proof. intros [[]|] [[]|] H; cbn in H; try discriminate; reflexivity. Qed.
+Lemma lst_eqb_eq : forall a c, lst_eqb a c = true -> a = c.
+Proof.
+  intros [a1 a2 a3] [c1 c2 c3] H. unfold lst_eqb in H; cbn in H.
+  apply andb_true_iff in H as [H H3]. apply andb_true_iff in H as [H1 H2].
+  apply pside_beq_eq in H1. apply cside_beq_eq in H2. apply (list_beq_eq _ _ msg_beq_eq) in H3. now subst.
+Qed.
+
 Definition mem (s : lst) (L : list lst) : bool := existsb (lst_eqb s) L.
 
 Lemma mem_In : forall s L, mem s L = true -> In s L.
 Proof.
   unfold mem; intros s L H. apply existsb_exists in H as [x [Hx He]].
-  unfold lst_eqb in He. destruct (lst_eq_dec s x); [subst; assumption | discriminate].
+  apply lst_eqb_eq in He. now subst.
 Qed.
 
 (* ---- reachability ---------------------------------------------------------------------- *)
@@ -145,7 +200,7 @@ Definition isa_classes (C : list cop) : list exn :=
 
 Definition beh_agree (C : list cop) (b b' : beh) : Prop :=
   b_out b = b_out b' /\ b_big b = b_big b' /\ b_pick b = b_pick b' /\ b_async b = b_async b' /\
-  b_ret_err b = b_ret_err b' /\
+  b_ret_err b = b_ret_err b' /\ b_unp b = b_unp b' /\
   forall c, In c (isa_classes C) -> b_isa b c = b_isa b' c.
 
 Lemma existsb_agree : forall (f g : exn -> bool) l, (forall c, In c l -> f c = g c) -> existsb f l = existsb g l.
@@ -156,12 +211,12 @@ Qed.
 
 Lemma lstep_ext : forall P C b b' env c s, beh_agree C b b' -> lstep P C b env c s = lstep P C b' env c s.
 Proof.
-  intros P C b b' env c s (Ho & Hb & Hp & Ha & Hr & Hi).
+  intros P C b b' env c s (Ho & Hb & Hp & Ha & Hr & Hu & Hi).
   destruct c; cbn [lstep].
   - (* parent: only pep479 looks at the behaviour *)
     unfold p_step. destruct (p_stat (ps s)); try reflexivity.
     destruct (nth_error P (p_pc (ps s))) as [op|]; [|reflexivity].
-    destruct op; try reflexivity. cbn [p_exec].
+    destruct op; try reflexivity; cbn [p_exec]; try (unfold p_recv; now rewrite Hu).
     destruct (p_result (ps s)) as [[|x]|]; try reflexivity.
     + now rewrite Hr.
     + unfold pep479. destruct x; try reflexivity. rewrite (Hi StopIterationC); [reflexivity|].
@@ -202,9 +257,9 @@ Fixpoint all_tables (cls : list exn) : list (list (exn * bool)) :=
 
 Definition bools : list bool := [true; false].
 Definition all_behs (C : list cop) : list beh :=
-  flat_map (fun o => flat_map (fun t => flat_map (fun big => flat_map (fun pick => flat_map (fun asy => map (fun re =>
-    {| b_out := o; b_isa := assoc_isa t; b_big := big; b_pick := pick; b_async := asy; b_ret_err := re |})
-    bools) bools) bools) bools) (all_tables (isa_classes C))) [COk; CRaise; CDie].
+  flat_map (fun o => flat_map (fun t => flat_map (fun big => flat_map (fun pick => flat_map (fun asy => flat_map (fun re => map (fun un =>
+    {| b_out := o; b_isa := assoc_isa t; b_big := big; b_pick := pick; b_async := asy; b_ret_err := re; b_unp := un |})
+    bools) bools) bools) bools) bools) (all_tables (isa_classes C))) [COk; CRaise; CDie].
 
 Lemma all_tables_complete : forall (f : exn -> bool) cls,
   exists t, In t (all_tables cls) /\ forall c, In c cls -> assoc_isa t c = f c.
@@ -221,13 +276,14 @@ Lemma all_behs_complete : forall C b, exists b', In b' (all_behs C) /\ beh_agree
 Proof.
   intros C b. destruct (all_tables_complete (b_isa b) (isa_classes C)) as [t [Ht Hf]].
   exists {| b_out := b_out b; b_isa := assoc_isa t; b_big := b_big b; b_pick := b_pick b; b_async := b_async b;
-            b_ret_err := b_ret_err b |}.
+            b_ret_err := b_ret_err b; b_unp := b_unp b |}.
   split.
   - unfold all_behs. apply in_flat_map. exists (b_out b). split; [destruct (b_out b); cbn; auto|].
     apply in_flat_map. exists t. split; [exact Ht|].
     apply in_flat_map. exists (b_big b). split; [destruct (b_big b); cbn; auto|].
     apply in_flat_map. exists (b_pick b). split; [destruct (b_pick b); cbn; auto|].
     apply in_flat_map. exists (b_async b). split; [destruct (b_async b); cbn; auto|].
-    apply in_map_iff. exists (b_ret_err b). split; [reflexivity | destruct (b_ret_err b); cbn; auto].
+    apply in_flat_map. exists (b_ret_err b). split; [destruct (b_ret_err b); cbn; auto|].
+    apply in_map_iff. exists (b_unp b). split; [reflexivity | destruct (b_unp b); cbn; auto].
   - repeat split; try reflexivity. intros c Hc. cbn. symmetry. now apply Hf.
 Qed.
